@@ -21,3 +21,9 @@ chk("C07", "other",
     "Real-arithmetic model; per-peak error cut to a free real at the store to the C local sumsq (its definition is a separate obligation); OpenMP runtime contract (static schedule, reduction) trusted; sequential consistency; refinegrains.assignlabels is mirrored as a call protocol (per-grain g-vectors = free errors), not executed.",
     "symbolic execution of LLVM IR (llsym, sequential and -fopenmp outlined) + pysym on the Python driver + z3; alias/footprint queries for schedule independence; confirmation on the rebuilt OpenMP kernel", "DESIGN.md 3/C07, 2.9", "llsym+pysym")
 del NA["C07"]
+
+chk("C11", "other",
+    "Bounded exhaustive symbolic execution of the real labelling kernels (clang IR): symbolic pixel values and threshold, so that every threshold pattern of every shape in the bound (2x2 ... 3x3 quick, ... 3x4 thorough) is one solver-checked path set; labels are compared with a graph oracle on each (background, partition, 1..n, count), dense 8/4, sparse and splat on the same pixels; sparse kernels with symbolic sorted coordinates against a solver-quantified reachability relation; the union-find growth (realloc) path as a unit; relabel loop race-freedom by alias queries.",
+    "Images up to 3x4 and sparse nnz <= 3 (quick) / 4 (thorough) on a 3x3/4x4 grid; capacities 4..8 stand in for the 16384-entry label table (same code, smaller constant); pixel values as reals; allocation never fails; splat receives zeroed labels as its Python caller provides.",
+    "symbolic execution of LLVM IR (llsym) with z3 path feasibility, per-path graph oracle / z3 reachability queries, violating models replayed on the rebuilt kernels through ctypes", "DESIGN.md 3/C11", "llsym")
+del NA["C11"]
